@@ -263,11 +263,65 @@ def _mutable_expr(v):
     return True        # displays, comprehensions, calls (dict(), np.zeros(...), OrderedDict() ...), subscripts, ...
 
 
+def _package_class_names(root):
+    names = set()
+    for dp, _, fs in os.walk(root):
+        for f in fs:
+            if f.endswith('.py'):
+                try: tree = ast.parse(open(os.path.join(dp, f)).read())
+                except SyntaxError: continue
+                names |= {n.name for n in ast.walk(tree) if isinstance(n, ast.ClassDef)}
+    return names
+
+
+def _shared_object_stores(tree, class_names):
+    """(line, text) of every statement that STORES into an object shared by all calls: an attribute of a class (`Cls.n += 1`,
+    `cls.n = ...`, `type(self).n = ...`, `self.__class__.n = ...`) or of an imported module (`tensor_module.flag = ...`), through
+    assignment, augmented assignment, `setattr`, or a subscript of `globals()` / `vars(X)` / `X.__dict__` — the ways a counter or
+    a flag survives a call without a `global` statement and without a mutable literal"""
+    imported = set()
+    for n in ast.walk(tree):
+        if isinstance(n, ast.Import): imported |= {(a.asname or a.name).split('.')[0] for a in n.names}
+        if isinstance(n, ast.ImportFrom): imported |= {a.asname or a.name for a in n.names}
+    shared_names = class_names | imported | {'cls', '__class__'}
+    def shared(e):
+        """is `e` an expression for a class / module object?"""
+        if isinstance(e, ast.Name): return e.id in shared_names
+        if isinstance(e, ast.Attribute): return e.attr == '__class__' or (shared(e.value) and (e.attr in class_names or e.attr[:1].isupper()))
+        if isinstance(e, ast.Call): return isinstance(e.func, ast.Name) and e.func.id == 'type' and len(e.args) == 1
+        return False
+    def shared_dict(e):
+        if isinstance(e, ast.Call) and isinstance(e.func, ast.Name) and e.func.id in ('globals', 'vars'): return e.func.id == 'globals' or (len(e.args) == 1 and shared(e.args[0]))
+        return isinstance(e, ast.Attribute) and e.attr == '__dict__' and shared(e.value)
+    out = []
+    def target(t, ln):
+        if isinstance(t, (ast.Tuple, ast.List)):
+            for e in t.elts: target(e, ln)
+        elif isinstance(t, ast.Starred): target(t.value, ln)
+        elif isinstance(t, ast.Attribute) and shared(t.value): out.append((ln, ast.unparse(t)))
+        elif isinstance(t, ast.Subscript) and shared_dict(t.value): out.append((ln, ast.unparse(t)))
+    for n in ast.walk(tree):
+        if isinstance(n, ast.Assign):
+            for t in n.targets: target(t, n.lineno)
+        elif isinstance(n, (ast.AugAssign, ast.AnnAssign)) and (not isinstance(n, ast.AnnAssign) or n.value is not None): target(n.target, n.lineno)
+        elif isinstance(n, (ast.For, ast.AsyncFor)): target(n.target, n.lineno)
+        elif isinstance(n, ast.NamedExpr): target(n.target, n.lineno)
+        elif isinstance(n, ast.Delete):
+            for t in n.targets: target(t, n.lineno)
+        elif isinstance(n, ast.Call) and isinstance(n.func, ast.Name) and n.func.id in ('setattr', 'delattr') and n.args and shared(n.args[0]):
+            out.append((n.lineno, ast.unparse(n)[:60]))
+        elif isinstance(n, ast.Call) and isinstance(n.func, ast.Attribute) and n.func.attr in ('update', 'setdefault', 'pop', 'clear') and shared_dict(n.func.value):
+            out.append((n.lineno, ast.unparse(n)[:60]))
+    return out
+
+
 def extract_persistent_sites():
     """(file, line, kind, name): every place where state can outlive a call — module-level and class-level assignments of
-    mutable objects, mutable default arguments, memoising decorators, `global` statements"""
+    mutable objects, mutable default arguments, memoising decorators, `global` statements, stores into attributes of class /
+    module objects (a class-level counter bumped through `Cls.n += 1` needs neither a mutable literal nor `global`)"""
     sites = []
     root = os.path.join(common.REPO, 'synapgrad')
+    class_names = _package_class_names(root)
     for dp, _, fs in os.walk(root):
         for f in sorted(fs):
             if not f.endswith('.py'): continue
@@ -279,6 +333,8 @@ def extract_persistent_sites():
             def targets(n):
                 ts = n.targets if isinstance(n, ast.Assign) else [n.target]
                 return ','.join(ast.unparse(t) for t in ts)
+            for ln, text in _shared_object_stores(tree, class_names):
+                sites.append((rel, ln, 'shared-attr-store', text))
             for n in tree.body:
                 if isinstance(n, (ast.Assign, ast.AnnAssign, ast.AugAssign)) and _mutable_expr(n.value):
                     sites.append((rel, n.lineno, 'module', targets(n) if not isinstance(n, ast.AugAssign) else ast.unparse(n.target)))
